@@ -5,7 +5,8 @@
 From Coq Require Import ZArith List QArith Qcanon Bool Arith Lia Permutation.
 From SG Require Import Base.QcUtil Base.PolyInt Base.PolyQ Model.Basis Model.BasisPieces
   Proofs.BasisLagrange Proofs.BasisHier Proofs.BasisInterp Proofs.BasisCheck Proofs.BasisTrees
-  Proofs.BasisPieces Proofs.BasisRepro Proofs.BasisFlat.
+  Proofs.BasisPieces Proofs.BasisRepro Proofs.BasisFlat
+  Model.BasisTree Proofs.BasisTreeP Model.GaussLegendre Proofs.GaussLegendreP.
 Import ListNotations.
 Open Scope Qc_scope.
 
@@ -369,3 +370,90 @@ Print Assumptions C10_lagrange_span_is_reproduced.
 Print Assumptions C10_forward_substitution_systems_act_columnwise.
 Print Assumptions C10_pole_coordinates_in_range.
 Print Assumptions C10_pole_offsets_enumerate_the_slice.
+
+
+(* ================================================================== phase 3 *)
+(* ---- EVERY refinement tree is accepted (replaces the role of C10_tree_grids_hier_ok_bounded, which stays above):
+        for every binary refinement tree t of arbitrary depth and shape with arbitrary strictly increasing coordinates in (a, b)
+        (in_range), every order p >= 1 and both boundary flags, the hierarchical Lagrange system built by the tree recursion
+        (Model/BasisTree.v: knots of x = knots left of its interval ++ x :: knots right of it, window of p+1 knots,
+        LagrangeBasisRestricted) exists and is accepted by the structural checker along the level order - so its collocation
+        matrix is unit lower triangular, forward substitution solves it, the solution is unique, and the model pipeline takes
+        forward substitution.  The tree recursion is tied to the code-shaped level loop with get_parent
+        (Model/Basis.lagrange_system) by C10_tree_model_equals_list_model_bounded and, beyond the bound, by the entry point
+        (sub 8) on every explored Lagrange grid. *)
+Theorem C10_every_refinement_tree_is_accepted : forall p boundary a b t,
+  (1 <= p)%nat -> a < b -> in_range a b t ->
+  exists sy, tree_system p boundary a b t = Some sy
+    /\ map fst sy = interior boundary (tree_points a b t)
+    /\ hier_okb sy (level_order (interior boundary (tree_levels t))) = true.
+Proof. exact tree_system_accepted. Qed.
+Theorem C10_every_refinement_tree_is_unit_triangular_and_uniquely_solvable : forall p boundary a b t,
+  (1 <= p)%nat -> a < b -> in_range a b t ->
+  exists sy, tree_system p boundary a b t = Some sy /\
+    let ord := level_order (interior boundary (tree_levels t)) in
+    Permutation ord (seq 0 (length sy)) /\ tri (colloc sy) ord /\ (forall i, (i < length sy)%nat -> mget (colloc sy) i i = 1)
+    /\ sys_sound {| s_basis := sy; s_ord := Some ord |} /\ sys_inj {| s_basis := sy; s_ord := Some ord |}.
+Proof. exact tree_system_triangular. Qed.
+Theorem C10_tree_systems_take_forward_substitution : forall p boundary a b t sy,
+  (1 <= p)%nat -> a < b -> in_range a b t -> tree_system p boundary a b t = Some sy ->
+  choose_solver (sy, interior boundary (tree_levels t), true)
+  = ({| s_basis := sy; s_ord := Some (level_order (interior boundary (tree_levels t))) |}, true).
+Proof. exact tree_system_forward_substitution. Qed.
+(* the knot window is a segment of the knot list around x, and the basis built from ANY strictly increasing knot list vanishes
+   at everything that is not strictly between the two neighbours of x in that list *)
+Theorem C10_knot_window_basis : forall p K x i,
+  (1 <= p)%nat -> strictly_increasing K = true -> index_of x K = Some i ->
+  exists kw ix, knot_basis p K x = Some (BRLag kw ix) /\ rl_ok x (BRLag kw ix) = true
+    /\ forall y, outside_neighbours K i x y -> rl_vanish_witness kw ix y = true.
+Proof. exact knot_basis_ok. Qed.
+Theorem C10_level_order_is_a_sorted_permutation : forall levs,
+  Permutation (level_order levs) (seq 0 (length levs)) /\ Sorted.StronglySorted (lle levs) (level_order levs).
+Proof. intro levs. split; [apply level_order_perm | apply level_order_sorted]. Qed.
+(* BOUNDED tie of the two models (the comparison itself runs on every explored grid through the entry point) *)
+Theorem C10_tree_model_equals_list_model_bounded : forall p boundary ins,
+  In p (seq 1 6) -> In ins (trees_upto 5) ->
+  tree_check p boundary 0 1 (fst (tree_from 0 1 ins)) (snd (tree_from 0 1 ins)) = (true, true, true).
+Proof. exact tree_model_equals_list_model_bounded. Qed.
+Print Assumptions C10_every_refinement_tree_is_accepted.
+Print Assumptions C10_every_refinement_tree_is_unit_triangular_and_uniquely_solvable.
+Print Assumptions C10_tree_systems_take_forward_substitution.
+Print Assumptions C10_knot_window_basis.
+Print Assumptions C10_level_order_is_a_sorted_permutation.
+Print Assumptions C10_tree_model_equals_list_model_bounded.
+
+(* ---- the Gauss-Legendre rules of get_integral (leggauss(int(p/2)+1)), with their EXACT irrational nodes in Q(sqrt 3):
+        every polynomial with <= 2n coefficients is integrated exactly over every interval (irrational part 0, rational part = the
+        formal integral the model uses) for n = 1, 2, i.e. for the orders p <= 3 (the default p = 3 included): the rule of order p is
+        exact for degree <= p.  n = 3 (p = 4, 5; nodes in Q(sqrt 15)) is in the model (gl_rule 3) but its exactness is not proved
+        (the monolithic field proof exhausts memory; needs linearity in the coefficients); n = 4 (p = 6, 7; nested radicals) is not
+        represented: for p >= 4 the exactness of the rule stays modelled. *)
+Theorem C10_gauss_legendre_rule_exact : forall n D rule, (n <= 2)%nat -> gl_rule n = Some (D, rule) ->
+  forall P lo hi, (length P <= 2 * n)%nat -> gl_apply D rule P lo hi = (pintegral P lo hi, 0).
+Proof. exact gl_rule_exact. Qed.
+Theorem C10_code_gauss_rule_exact_for_degree_p : forall p, (1 <= p <= 3)%nat ->
+  exists D rule, gl_rule (gl_points p) = Some (D, rule) /\
+    forall P lo hi, (length P <= p + 1)%nat -> gl_apply D rule P lo hi = (pintegral P lo hi, 0).
+Proof. exact code_rule_exact_for_degree_p. Qed.
+Print Assumptions C10_gauss_legendre_rule_exact.
+Print Assumptions C10_code_gauss_rule_exact_for_degree_p.
+
+(* ------------------------------------------------------------------ non-vacuity (phase 3) *)
+(* a skew tree of depth 4 with off-centre coordinates on [-3, 6], p = 2, no boundary points: in range, system exists with 4 functions,
+   accepted; and the 2-point rule integrates x^3 + x^2 over [1/2, 2] exactly *)
+Example C10_tree_acceptance_nonvacuous :
+  let t := RNode (RNode RLeaf (qd (-2) 1) (RNode (RNode RLeaf (qd (-1) 2) RLeaf) (qd 0 1) RLeaf)) (qd 1 1) RLeaf in
+  in_range (qd (-3) 1) (qd 6 1) t /\ rt_levels 0 0 t = [2; 4; 3; 1]%nat /\
+  exists sy, tree_system 2 false (qd (-3) 1) (qd 6 1) t = Some sy /\ length sy = 4%nat
+    /\ hier_okb sy (level_order (rt_levels 0 0 t)) = true.
+Proof.
+  cbv zeta. split; [cbn [in_range]; repeat split; vm_compute; reflexivity|]. split; [reflexivity|].
+  eexists. split; [vm_compute; reflexivity|]. split; [reflexivity | vm_compute; reflexivity].
+Qed.
+Example C10_gauss_rule_nonvacuous :
+  exists D rule, gl_rule 2 = Some (D, rule) /\
+    gl_apply D rule [0; 0; 1; 1] (qd 1 2) (qd 2 1) = (pintegral [0; 0; 1; 1] (qd 1 2) (qd 2 1), 0)
+    /\ pintegral [0; 0; 1; 1] (qd 1 2) (qd 2 1) <> 0 /\ snd (fst (hd ((0, 0), 0) rule)) <> 0.
+Proof.
+  eexists. eexists. split; [reflexivity|]. split; [apply gl2_exact; simpl; lia|]. split; vm_compute; discriminate.
+Qed.
